@@ -1,1 +1,335 @@
-//! c12 harnesses
+//! C12 — blackboard entries (UnrestrictedAtomic) are read in one piece, monotonically; one writer.
+//!
+//! Tear model: `core::ptr::copy_nonoverlapping` (the reader's copy in `UnrestrictedAtomicMgmt::load`)
+//! is replaced (Kani stub) by a byte loop with a scheduling point in the middle, so the writer
+//! can lap the reader inside one copy.
+
+use crate::common::*;
+use iceoryx2_bb_lock_free::spmc::unrestricted_atomic::*;
+
+pub static mut COPY_CALLS: u32 = 100;
+
+/// plain byte copy (no scheduling point) — used by the sequential harnesses
+pub unsafe fn byte_copy<T>(src: *const T, dst: *mut T, count: usize) {
+    unsafe {
+        COPY_CALLS += 1;
+        let n = count * core::mem::size_of::<T>();
+        let s = src as *const u8;
+        let d = dst as *mut u8;
+        let mut i = 0;
+        while i < n {
+            *d.add(i) = *s.add(i);
+            i += 1;
+        }
+    }
+}
+
+type Pair = [u32; 2];
+fn pair(i: u32) -> Pair {
+    [i, !i]
+}
+fn is_pair(v: Pair) -> bool {
+    v[1] == !v[0]
+}
+
+/// sequential: k stores (both store flavours) each followed by a load; single-writer rule
+proof_copy!(10, crate::c12::byte_copy, fn c12_seq_store_load() {
+    let init: u32 = kani::any();
+    let a = UnrestrictedAtomic::<Pair>::new(pair(init));
+    assert!(a.load() == pair(init), "c12: initial value not readable");
+    let p = a.acquire_producer().unwrap();
+    assert!(a.acquire_producer().is_none(), "c12: a second producer was handed out");
+    let mut step = 0;
+    while step < 3 {
+        let v: u32 = kani::any();
+        if kani::any() {
+            p.store(pair(v));
+        } else {
+            unsafe {
+                let ptr = p.__internal_get_ptr_to_write_cell();
+                // until the write cell is published the readers still see the old value
+                let before = a.load();
+                ptr.write(pair(v));
+                assert!(a.load() == before, "c12: unpublished loan-style write is visible");
+                p.__internal_update_write_cell();
+            }
+        }
+        assert!(a.load() == pair(v), "c12: load does not return the last stored value");
+        assert!(a.__internal_get_write_cell() == step as u64 + 2);
+        step += 1;
+    }
+    drop(p);
+    let p2 = a.acquire_producer();
+    assert!(p2.is_some(), "c12: producer not re-acquirable after drop");
+    assert!(unsafe { COPY_CALLS } > 100, "harness: copy stub not reached");
+    canaries();
+});
+
+/// raw management API with run-time type details (size, alignment): the two cells do not overlap,
+/// stay inside the computed atomic size and store/load round-trips
+proof_copy!(14, crate::c12::byte_copy, fn c12_seq_raw_layout() {
+    let mut mem = Block::<128>::new();
+    let mis: usize = kani::any();
+    kani::assume(mis < 8);
+    let al: u8 = kani::any();
+    kani::assume(al <= 3);
+    let align = 1usize << al;
+    let units: usize = kani::any();
+    kani::assume(units >= 1 && units <= 3);
+    let size = units * align; // sizes are multiples of the alignment (Rust layout rule)
+    kani::assume(size <= 12);
+    let total = UnrestrictedAtomicMgmt::__internal_get_unrestricted_atomic_size(size, align);
+    let talign = UnrestrictedAtomicMgmt::__internal_get_unrestricted_atomic_alignment(align);
+    assert!(total % talign == 0);
+    unsafe {
+        let raw = mem.0.as_mut_ptr().add(mis);
+        let ptrs = __internal_calculate_atomic_mgmt_and_payload_ptr(raw, align);
+        let mgmt = &*(ptrs.atomic_mgmt_ptr as *const UnrestrictedAtomicMgmt);
+        let base = ptrs.atomic_mgmt_ptr as usize;
+        assert!(base % talign == 0, "c12: management block misaligned");
+        let c0 = UnrestrictedAtomicMgmt::__internal_get_data_cell(size, align, ptrs.atomic_payload_ptr, 0);
+        let c1 = UnrestrictedAtomicMgmt::__internal_get_data_cell(size, align, ptrs.atomic_payload_ptr, 1);
+        assert!(c0 % align == 0 && c1 % align == 0, "c12: data cell misaligned");
+        assert!(c0 + size <= c1 || c1 + size <= c0, "c12: data cells overlap");
+        assert!(c0 >= base + core::mem::size_of::<UnrestrictedAtomicMgmt>(), "c12: data cell overlaps the management block");
+        assert!(c0 + size <= base + total && c1 + size <= base + total, "c12: data cell outside the computed atomic size");
+        // store through the raw API, load back
+        let val: [u8; 12] = kani::any();
+        let w = mgmt.__internal_get_ptr_to_write_cell(size, align, ptrs.atomic_payload_ptr);
+        assert!(w as usize == c1, "c12: first write goes to the cell the readers are not using");
+        let mut i = 0;
+        while i < 12 {
+            if i < size {
+                *w.add(i) = val[i];
+            }
+            i += 1;
+        }
+        mgmt.__internal_update_write_cell();
+        let mut out = [0u8; 12];
+        mgmt.load(out.as_mut_ptr(), size, align, ptrs.atomic_payload_ptr);
+        let mut i = 0;
+        while i < 12 {
+            if i < size {
+                assert!(out[i] == val[i], "c12: raw load differs from the stored bytes");
+            }
+            i += 1;
+        }
+    }
+    kani::cover!(size == 12 && mis == 7, "largest value at the worst misalignment");
+    canaries();
+});
+
+// ==========================================================================================
+// engine S
+// ==========================================================================================
+
+#[cfg(feature = "sched")]
+pub mod sched {
+    use super::*;
+    use iceoryx2_pal_concurrency_sync::verif_atomic::{verif_clear_hook, verif_set_hook, yield_point};
+
+    pub static mut SPLITS: u32 = 100;
+
+    /// tear model: first half, scheduling point, second half
+    pub unsafe fn split_copy<T>(src: *const T, dst: *mut T, count: usize) {
+        unsafe {
+            let n = count * core::mem::size_of::<T>();
+            let s = src as *const u8;
+            let d = dst as *mut u8;
+            let half = n / 2;
+            let mut i = 0;
+            while i < half {
+                *d.add(i) = *s.add(i);
+                i += 1;
+            }
+            SPLITS += 1;
+            yield_point();
+            while i < n {
+                *d.add(i) = *s.add(i);
+                i += 1;
+            }
+        }
+    }
+
+    pub struct Book {
+        pub next: u32,          // next value the writer stores (values 1, 2, 3, ...)
+        pub completed: u32,     // last value whose store has completed
+        pub budget: usize,
+        pub in_inner: u8,
+        pub mid: u8,
+        pub writes_mid_load: usize,
+        pub loads_mid_store: usize,
+        pub last_seen: u32,
+        pub bad: u8,            // 2 = fine
+    }
+    pub static mut BOOK: Book = Book { next: 1, completed: 0, budget: 0, in_inner: 2, mid: 2, writes_mid_load: 0,
+        loads_mid_store: 0, last_seen: 0, bad: 2 };
+    pub static mut APTR: usize = 1;
+    pub static mut PPTR: usize = 1;
+
+    unsafe fn atomic() -> &'static UnrestrictedAtomic<Pair> {
+        &*(APTR as *const UnrestrictedAtomic<Pair>)
+    }
+
+    fn do_store(two_step: bool) {
+        unsafe {
+            let p = &*(PPTR as *const Producer<'static, Pair>);
+            let v = BOOK.next;
+            BOOK.next += 1;
+            if two_step {
+                let ptr = p.__internal_get_ptr_to_write_cell();
+                ptr.write(pair(v));
+                p.__internal_update_write_cell();
+            } else {
+                p.store(pair(v));
+            }
+            BOOK.completed = v;
+        }
+    }
+
+    /// a load must return a pair that was written in one piece, not older than the last store
+    /// completed before the load began, not newer than the last store started, and not older
+    /// than what this reader has already seen
+    fn do_load() {
+        unsafe {
+            let floor = BOOK.completed;
+            let v = atomic().load();
+            let ceil = BOOK.next - 1;
+            assert!(is_pair(v), "c12: torn read (mixture of two writes)");
+            assert!(v[0] >= floor, "c12: load returned a value older than a store completed before it began");
+            assert!(v[0] <= ceil, "c12: load returned a value that was never stored");
+            assert!(v[0] >= BOOK.last_seen, "c12: successive loads went back to an older value");
+            BOOK.last_seen = v[0];
+        }
+    }
+
+    pub fn hook_writer() {
+        unsafe {
+            if BOOK.in_inner == 1 {
+                return;
+            }
+            BOOK.in_inner = 1;
+            if BOOK.budget > 0 && kani::any::<bool>() {
+                BOOK.budget -= 1;
+                if BOOK.mid == 1 {
+                    BOOK.writes_mid_load += 1;
+                }
+                do_store(kani::any());
+            }
+            BOOK.in_inner = 2;
+        }
+    }
+
+    pub fn hook_reader() {
+        unsafe {
+            if BOOK.in_inner == 1 {
+                return;
+            }
+            BOOK.in_inner = 1;
+            if BOOK.budget > 0 && kani::any::<bool>() {
+                BOOK.budget -= 1;
+                if BOOK.mid == 1 {
+                    BOOK.loads_mid_store += 1;
+                }
+                do_load();
+            }
+            BOOK.in_inner = 2;
+        }
+    }
+
+    /// outer = reader (LOADS loads), inner = writer (up to STORES complete stores at any of the
+    /// reader's scheduling points incl. the middle of its copy)
+    pub fn reader_outer<const LOADS: usize, const STORES: usize>() {
+        let a = UnrestrictedAtomic::<Pair>::new(pair(0));
+        let p = a.acquire_producer().unwrap();
+        unsafe {
+            APTR = &a as *const _ as usize;
+            PPTR = &p as *const _ as usize;
+            BOOK.budget = STORES;
+            verif_set_hook(hook_writer);
+            let mut i = 0;
+            while i < LOADS {
+                BOOK.mid = 1;
+                do_load();
+                BOOK.mid = 2;
+                hook_writer();
+                i += 1;
+            }
+            verif_clear_hook();
+            kani::cover!(BOOK.writes_mid_load >= 2, "writer lapped the reader inside one load");
+            kani::cover!(BOOK.last_seen >= 1 && BOOK.writes_mid_load >= 1, "reader observed a value stored during its load");
+            assert!(SPLITS > 100, "harness: tear stub not reached");
+        }
+    }
+
+    /// outer = writer (STORES stores), inner = reader (complete loads inside the writer's stores)
+    pub fn writer_outer<const LOADS: usize, const STORES: usize>() {
+        let a = UnrestrictedAtomic::<Pair>::new(pair(0));
+        let p = a.acquire_producer().unwrap();
+        unsafe {
+            APTR = &a as *const _ as usize;
+            PPTR = &p as *const _ as usize;
+            BOOK.budget = LOADS;
+            verif_set_hook(hook_reader);
+            let mut i = 0;
+            while i < STORES {
+                BOOK.mid = 1;
+                do_store(kani::any());
+                BOOK.mid = 2;
+                hook_reader();
+                i += 1;
+            }
+            verif_clear_hook();
+            do_load();
+            assert!(BOOK.last_seen == STORES as u32, "c12: final load does not return the last store");
+            kani::cover!(BOOK.loads_mid_store >= 1, "a load ran inside a store");
+        }
+    }
+
+    /// two threads race for the producer: never both succeed
+    pub static mut INNER_GOT: u8 = 2;
+    pub fn hook_acquire() {
+        unsafe {
+            if BOOK.in_inner == 1 {
+                return;
+            }
+            BOOK.in_inner = 1;
+            if BOOK.budget > 0 && kani::any::<bool>() {
+                BOOK.budget -= 1;
+                let p = atomic().acquire_producer();
+                if p.is_some() {
+                    INNER_GOT = 1;
+                    if kani::any() {
+                        drop(p);
+                        INNER_GOT = 2;
+                    } else {
+                        core::mem::forget(p);
+                    }
+                }
+            }
+            BOOK.in_inner = 2;
+        }
+    }
+
+    proof_copy!(10, crate::c12::sched::split_copy, fn c12_s_reader_outer() { reader_outer::<2, 2>(); canaries(); });
+    proof_copy!(10, crate::c12::sched::split_copy, fn c12_s_writer_outer() { writer_outer::<2, 2>(); canaries(); });
+    proof_copy!(10, crate::c12::sched::split_copy, fn c12_s_reader_outer_deep() { reader_outer::<2, 3>(); canaries(); });
+    proof_copy!(10, crate::c12::sched::split_copy, fn c12_s_writer_outer_deep() { writer_outer::<3, 3>(); canaries(); });
+
+    proof!(6, fn c12_s_single_writer_race() {
+        let a = UnrestrictedAtomic::<Pair>::new(pair(0));
+        unsafe {
+            APTR = &a as *const _ as usize;
+            BOOK.budget = 2;
+            verif_set_hook(hook_acquire);
+            let p = a.acquire_producer();
+            verif_clear_hook();
+            if p.is_some() {
+                assert!(INNER_GOT == 2, "c12: two producers exist at the same time");
+            }
+            kani::cover!(p.is_none(), "outer acquire lost the race");
+            kani::cover!(p.is_some(), "outer acquire won the race");
+        }
+        canaries();
+    });
+}
